@@ -3,12 +3,12 @@
    nat / N / Z / positive stay the extracted inductives.  No Extract Constant. *)
 From Coq Require Import Extraction ExtrOcamlBasic ZArith NArith List.
 From Selfies Require Import Base Generated Lex Atoms Grammar Compat Decoder.
-From Selfies Require Import IndexSpec WfSpec EncUtils.
+From Selfies Require Import IndexSpec WfSpec EncUtils Reader DocGrammar.
 Extraction Language OCaml.
 Set Extraction AccessOpaque.
 Extraction "model.ml"
   Z.add Z.mul Z.opp Z.of_N Z.of_nat N.add N.mul N.of_nat N.to_nat Z.to_N
-  lit str_eqb default_constraints preset_constraints
+  lit str_eqb elements default_constraints preset_constraints
   split_selfies split_selfies_list len_selfies get_alphabet_from_selfies
   get_index_from_selfies get_selfies_from_index index_digit
   process_atom_symbol smiles_to_atom atom_to_smiles modernize_symbol
@@ -16,4 +16,5 @@ Extraction "model.ml"
   decoder decode_graph
   doc_digit doc_value
   render tokens symbols wf_parse
+  read_smiles valid_smiles_under simple_graph valence_ok kekule_form grammar_eval smol_eqb
   selfies_to_encoding encoding_to_selfies batch_selfies_to_flat_hot batch_flat_hot_to_selfies.
